@@ -289,3 +289,89 @@ func stringerKeyProbe(o *Oracle, salt int) {
 		}
 	}
 }
+
+// tkey: a string key type that reads its text form case-insensitively (a log level, an enum, a normalised name).
+// encoding/json gives such map keys precedence over their kind: every member name goes through UnmarshalText.
+// A document written by hand or by another program may spell the names any way; what it denotes is what
+// encoding/json makes of it.
+type tkey string
+
+func (k tkey) MarshalText() ([]byte, error) { return []byte(strings.ToUpper(string(k))), nil }
+func (k *tkey) UnmarshalText(b []byte) error {
+	*k = tkey(strings.ToUpper(string(b)))
+	return nil
+}
+
+// textKeyProbe (C12): a document with freely spelled member names is loaded onto a used map of every key-value
+// kind keyed by tkey; the content afterwards is what the reference decoder (encoding/json into map[tkey]string)
+// says the document denotes, and nothing of the prior content survives.
+func textKeyProbe(o *Oracle, salt int) {
+	names := []string{"warn", "Info", "ERROR", "dbg", "Trace", "fatal", "oFF"}
+	for _, kind := range []string{"hashmap", "treemap", "linkedhashmap", "redblacktree", "avltree", "btree"} {
+		if o.Failed() {
+			return
+		}
+		o.Kind = kind
+		m := newKVV[tkey, string](kind, 3+salt%3, func(a, b tkey) int { return strings.Compare(string(a), string(b)) })
+		m.Put("OLD", "x")
+		m.Put("WARN", "y")
+		if salt%5 == 0 {
+			m.Clear()
+		}
+		n := 1 + derive(salt, 7, 5)
+		var sb strings.Builder
+		sb.WriteByte('{')
+		var order []tkey
+		collide := derive(salt, 8, 3) == 0
+		for i := 0; i < n; i++ {
+			name := names[(derive(salt, 9, len(names))+i)%len(names)]
+			if collide && i == n-1 && n > 1 {
+				name = strings.ToLower(names[derive(salt, 9, len(names))%len(names)]) + "" // the first member again, spelled otherwise
+				if name == names[derive(salt, 9, len(names))%len(names)] {
+					name = strings.ToUpper(name)
+				}
+			} else {
+				order = append(order, tkey(strings.ToUpper(name)))
+			}
+			if i > 0 {
+				sb.WriteByte(',')
+			}
+			sb.Write(mustJSON(name))
+			sb.WriteByte(':')
+			sb.Write(mustJSON("v" + strconv.Itoa(i)))
+		}
+		sb.WriteByte('}')
+		doc := []byte(sb.String())
+		ref := map[tkey]string{}
+		if err := json.Unmarshal(doc, &ref); err != nil {
+			panic(harnessBug{fmt.Sprintf("textKeyProbe: reference decoder rejects %s: %v", doc, err)})
+		}
+		before := fmt.Sprint(m.Keys(), m.Values())
+		if err := loadVariantRaw(m.(jsonIO), salt, doc); err != nil {
+			if after := fmt.Sprint(m.Keys(), m.Values()); after != before && kind != "hashmap" {
+				o.Fail("C12", "error-not-atomic", "%s keyed by a text-unmarshalling string type: loading %s failed (%v) and changed the map: %s -> %s", kind, doc, err, before, after)
+			}
+			o.Unjudged("C12 text-key document rejected")
+			continue
+		}
+		bad := m.Size() != len(ref) || len(m.Keys()) != len(ref)
+		for k, v := range ref {
+			if g, ok := m.Get(k); !ok || g != v {
+				bad = true
+			}
+		}
+		for _, k := range m.Keys() {
+			if _, ok := ref[k]; !ok {
+				bad = true
+			}
+		}
+		if bad {
+			o.Fail("C12", "loaded-content", "%s keyed by a string type that reads its text form case-insensitively: after loading %s onto a map holding %s: Size()=%d Keys()=%v Values()=%v, the document denotes %v", kind, doc, before, m.Size(), m.Keys(), m.Values(), ref)
+			return
+		}
+		if kind == "linkedhashmap" && !collide && !slices.Equal(m.Keys(), order) {
+			o.Fail("C12", "loaded-order", "linkedhashmap keyed by a string type that reads its text form case-insensitively: after loading %s Keys()=%v, member order %v", doc, m.Keys(), order)
+			return
+		}
+	}
+}
